@@ -34,6 +34,10 @@ pub struct Op {
 #[derive(Clone, Debug, Serialize, Deserialize)]
 pub struct Plan {
     pub seed: u64,
+    /// "network" (producer + observers) or "chain" (producer builds on its own tip through Block::create
+    /// with harness-made transactions and validates the result itself; long histories)
+    #[serde(default)]
+    pub family: String,
     pub gp: u64,
     pub heartbeat: u64,
     pub observers: usize,
@@ -48,6 +52,7 @@ fn gen(seed: u64, tier: Tier) -> Plan {
     let ops = (0..n).map(|_| Op { k: rng.pick(&kinds).to_string(), a: rng.below(64), b: rng.below(64) }).collect();
     Plan {
         seed,
+        family: if rng.chance(1, 3) { "chain".into() } else { "network".into() },
         gp: *rng.pick(&[3u64, 4, 5, 8, 20, 100]),
         heartbeat: *rng.pick(&[200u64, 1000, 5000]),
         observers: rng.range(1, 2) as usize,
@@ -81,6 +86,9 @@ impl Scenario for C07 {
     fn execute(&self, plan: &Value) -> RunResult {
         let plan: Plan = serde_json::from_value(plan.clone()).expect("plan");
         let mut r = RunResult::default();
+        if plan.family == "chain" {
+            return chain_family(&plan);
+        }
         let mut rng = Rng::new(mix(plan.seed, 7));
         let pk = derive_key(plan.seed, 0);
         let users: Vec<Key> = (1..=3).map(|i| derive_key(plan.seed, i)).collect();
@@ -294,8 +302,12 @@ impl Scenario for C07 {
                 (cnt.max(bc.get_latest_block_id().saturating_sub(1)), (bc.get_latest_block_id(), bc.get_latest_block_hash()))
             };
             if created > own_on_chain {
+                let mult = {
+                    let bc = block_on(sim.nodes[p].blockchain_lock.read());
+                    atr_multiplier(&bc, plan.gp)
+                };
                 r.violate(
-                    "C07|producer-refused-own-block",
+                    if mult > 1 { "C07|producer-refused-own-block|network|atr-treasury-multiplier-above-1" } else { "C07|producer-refused-own-block|network|other" },
                     format!("op {} ({}): the producer bundled {} blocks but only {} are on its chain (tip id {})", oi, op.k, created, own_on_chain, ptip.0),
                 );
                 break;
@@ -371,4 +383,93 @@ impl Scenario for C07 {
         }
         out.into_iter().map(|p| serde_json::to_value(p).unwrap()).collect()
     }
+}
+
+/// producer == first validator: every block built by the real Block::create on the node's own tip
+/// from valid transactions must be accepted by that node and by an observer holding the same chain
+fn chain_family(plan: &Plan) -> RunResult {
+    let mut r = RunResult::default();
+    let gp = plan.gp.min(10);
+    let params = Params { genesis_period: gp, heartbeat: 1000, n_users: 3, slips_per_user: 4, base_amount: plan.base_amount };
+    let mut rng = Rng::new(mix(plan.seed, 70));
+    let mut c = match crate::util::guarded(|| Chain::new(plan.seed, params.clone(), 8)) {
+        Ok(Ok(c)) => c,
+        _ => {
+            r.discarded = true;
+            return r;
+        }
+    };
+    let mut observer = Node::new(&c.cfg, &c.keys[2].clone());
+    let _ = observer.add_block_bytes(&c.recs[0].bytes.clone());
+    let mut trace = Digest::new();
+    let n = plan.ops.len().min(120);
+    for i in 0..n {
+        let op = &plan.ops[i];
+        let mut used = vec![];
+        let mut txs = vec![];
+        for k in 0..(1 + op.a % 3) {
+            let user = 1 + rng.usize_below(3);
+            let fee = match op.k.as_str() {
+                "tx-dust" => 0,
+                "tx-routed" => 50_000 + op.b * 1000,
+                _ => (op.b * 997 + k * 13) % 9000,
+            };
+            if let Some((t, inp)) = c.payment(user, 1 + rng.usize_below(3), rng.usize_below(32), fee, (op.a % 3) as usize, &used) {
+                used.push(inp.key());
+                txs.push(t);
+            }
+        }
+        if txs.is_empty() {
+            let tag = c.tag();
+            let ts = c.tip_rec().ts + tag;
+            txs.push(make_tx(&c.keys[1].clone(), &[], &[(c.keys[1].pk, 0)], ts, &tag.to_le_bytes()));
+        }
+        let tip_hash = c.tip_rec().hash;
+        // difficulty rises with consecutive tickets; mining cost is 2^difficulty
+        let difficulty = c.node.bc.get_block(&tip_hash).map(|b| b.difficulty).unwrap_or(0);
+        let want_gt = op.b % 2 == 0 && difficulty < 8;
+        let gt = want_gt || !c.node.bc.is_golden_ticket_count_valid(tip_hash, want_gt, false, false);
+        match crate::util::guarded(|| c.extend(txs, gt, 2100 + (op.a % 5) * 300)) {
+            Ok(Ok(idx)) => {
+                let rec = c.recs[idx].clone();
+                trace.bytes(&rec.hash);
+                r.steps += 1;
+                if rec.txs.iter().any(|t| t.ttype == TransactionType::Normal && t.inputs.iter().map(|s| s.amount as u128).sum::<u128>() > t.outputs.iter().map(|s| s.amount as u128).sum::<u128>()) {
+                    r.nontrivial.push(crate::rng::fnv_bytes(&rec.hash));
+                }
+                match crate::util::guarded(|| observer.add_block_bytes(&rec.bytes)) {
+                    Ok(Some(x)) if outcome_of(&x) == (AddOutcome::Added { longest: true }) => {}
+                    Ok(other) => {
+                        r.violate(
+                            "C07|observer-refused-producer-block|chain",
+                            format!("block id {} accepted by its producer but not by an observer holding the same chain: {:?}", rec.id, other.as_ref().map(outcome_of)),
+                        );
+                        break;
+                    }
+                    Err(p) => {
+                        r.violate(format!("C07|panic|observer|chain|{}", p.site()), format!("{} ({}:{})", p.msg, p.file, p.line));
+                        break;
+                    }
+                }
+            }
+            Ok(Err(e)) => {
+                let class = e.split("REFUSED[").nth(1).and_then(|x| x.split(']').next()).unwrap_or("build-failed").to_string();
+                if e.contains("REFUSED[") {
+                    r.violate(format!("C07|producer-refused-own-block|chain|{}", class), e);
+                } else {
+                    r.probe("chain_build_failed");
+                }
+                break;
+            }
+            Err(p) => {
+                r.violate(format!("C07|panic|producer|chain|{}", p.site()), format!("{} ({}:{})", p.msg, p.file, p.line));
+                break;
+            }
+        }
+    }
+    r.probe_n("chain_family_blocks", r.steps);
+    r.sim_time_ms = c.tip_rec().ts - TS0;
+    r.state_hash = trace.get();
+    r.trace_hash = trace.get();
+    r
 }
